@@ -115,7 +115,7 @@ func mix64(v uint64) uint64 {
 }
 
 // genOps: the operations Gen draws from (repetition = weight; drawn uniformly, see Uniform).
-var genOps = []string{"bytes", "bytes", "payload", "payload", "size", "size", "count", "count", "truncate", "drop", "drop", "dup", "swap", "rename", "insert", "insert", "zero", "verflags", "verflags", "wrap", "largesize", "emptytable"}
+var genOps = []string{"bytes", "bytes", "payload", "payload", "size", "size", "count", "count", "truncate", "drop", "drop", "dup", "swap", "rename", "insert", "insert", "zero", "verflags", "verflags", "wrap", "largesize", "emptytable", "wrapw", "dupw"}
 
 // Gen draws a list of 1..max mutations.
 func Gen(t *rapid.T, max int) []Mut {
@@ -168,7 +168,7 @@ func Gen(t *rapid.T, max int) []Mut {
 			} else {
 				m.Val = rapid.OneOf(rapid.SampledFrom(Hostile64), rapid.Uint64()).Draw(t, "val")
 			}
-		case "wrap":
+		case "wrap", "wrapw":
 			m.Str = rapid.SampledFrom([]string{"moov", "trak", "moof", "traf", "stbl", "free", "udta", "meta", "mdia", "minf", "mvex", "sinf", "schi", "zzzz"}).Draw(t, "container")
 		}
 		out = append(out, m)
@@ -198,6 +198,32 @@ func fixParents(data []byte, boxes []*boxwalk.Box, pos int, delta int) {
 		}
 	}
 	rec(boxes)
+}
+
+// fixAncestors adjusts the size fields of the boxes that contain target (not target itself) by delta.
+func fixAncestors(data []byte, boxes []*boxwalk.Box, target *boxwalk.Box, delta int) {
+	var path []*boxwalk.Box
+	var find func(bs []*boxwalk.Box) bool
+	find = func(bs []*boxwalk.Box) bool {
+		for _, b := range bs {
+			if b == target {
+				return true
+			}
+			if find(b.Children) {
+				path = append(path, b)
+				return true
+			}
+		}
+		return false
+	}
+	find(boxes)
+	for _, b := range path {
+		if b.Large {
+			binary.BigEndian.PutUint64(data[b.Start+8:], uint64(b.Size+delta))
+		} else if !b.ToEnd {
+			binary.BigEndian.PutUint32(data[b.Start:], uint32(b.Size+delta))
+		}
+	}
 }
 
 // Apply applies the recipe; it never fails (ops that do not fit are skipped).
@@ -381,6 +407,24 @@ func Apply(seed []byte, muts []Mut) []byte {
 			fixParents(data, tree, b.Start+1, 8)
 			hdr := boxwalk.Header(m.Str, b.Size, false)
 			data = append(data[:b.Start], append(hdr, data[b.Start:]...)...)
+		case "wrapw":
+			// well-formed wrap: a new container of b.Size+8 bytes around the unchanged box, ancestors grown by 8 ("wrap"
+			// also grows the wrapped box itself by 8: kept as it is for the stored recipes)
+			if b == nil || len(m.Str) != 4 || b.Size > 1<<20 {
+				continue
+			}
+			fixAncestors(data, tree, b, 8)
+			hdr := boxwalk.Header(m.Str, b.Size, false)
+			data = append(data[:b.Start], append(hdr, data[b.Start:]...)...)
+		case "dupw":
+			// well-formed duplicate: the copy follows the unchanged box, ancestors grown by its size ("dup" also doubles the
+			// size field of the box itself)
+			if b == nil || b.Size > 1<<16 {
+				continue
+			}
+			fixAncestors(data, tree, b, b.Size)
+			cp := append([]byte{}, data[b.Start:b.End()]...)
+			data = append(data[:b.End()], append(cp, data[b.End():]...)...)
 		}
 		if len(data) > 4<<20 {
 			data = data[:4<<20]
